@@ -230,3 +230,11 @@ impl VerifyQueue {
         self.shrink_to_fit();
     }
 }
+
+/// verification hook (off unless built with `--cfg ckb_verif`): read the private size counter
+#[cfg(ckb_verif)]
+impl VerifyQueue {
+    pub(crate) fn verif_total_tx_size(&self) -> usize {
+        self.total_tx_size
+    }
+}
